@@ -1,4 +1,5 @@
 """C08: validation is read-only: inputs and schema unchanged, results repeatable."""
+import copy
 import threading
 from collections import Counter
 
@@ -8,7 +9,8 @@ from ..valgen import Gen, copy_value, type_exact_eq
 from ..condgen import CondGen
 from ..pathgen import PathGen
 from ..rulegen import RuleGen
-from ..ruleterms import obs_rule_test
+from ..ruleterms import obs_rule_test, RuleT
+from ..terms import Leaf
 from ..terms import valida
 from ..trace import snap
 from . import schema_common as sc
@@ -49,6 +51,41 @@ def make_calls(g, cg, pg, rg, doc):
     return calls, {"cond": ct.descr()[:200], "path": pt.descr()[:200], "rules": [r.descr()[:200] for r in rts]}
 
 
+def alias_cast_case(g):
+    """A document in which ONE container object sits at several positions, and a cast rule whose path fans out over all of them
+    down to castable strings two or more levels deep: the second visit of the shared container finds it already cast in the
+    private copy; whatever bookkeeping tells private from caller-owned containers must not let a write through to the caller."""
+    from ..pathterms import PathT, Prim, MapT, ListT
+    r = g.r
+    leafs = lambda: r.choice(["3", "1", "0", "true", "no", "12", "x", 5, None])
+    if r.random() < 0.5:
+        shared = {k: leafs() for k in r.sample(["p", "q", "r", 1], r.randint(1, 3))}
+        inner = MapT()
+    else:
+        shared = [leafs() for _ in range(r.randint(1, 3))]
+        inner = ListT()
+    if r.random() < 0.3:
+        shared = {"deep": shared} if r.random() < 0.5 else [shared, shared]
+        inner2 = [MapT() if isinstance(shared, dict) else ListT(), inner]
+    else:
+        inner2 = [inner]
+    if r.random() < 0.5:
+        doc = {k: shared for k in r.sample(["a", "b", "c"], r.randint(2, 3))}
+        doc["other"] = leafs()
+        outer = MapT()
+    else:
+        doc = [shared] * r.randint(2, 3) + [leafs()]
+        outer = ListT()
+    cast = [r.choice(["int", "bool"])]
+    cond = Leaf("Value", r.choice(["truthy", "falsy"]), []) if r.random() < 0.5 else Leaf("ValueDataType", "in_", [[int, bool, str]])
+    rts = [RuleT(PathT([outer] + inner2), cond, cast)]
+    if r.random() < 0.5:
+        rts.append(RuleT(PathT([outer]), Leaf("ValueLength", "greater_than", [0]), []))
+    calls = [("rule.test", lambda: rts[0].build(), lambda o, d: (obs_rule_test(t := o.test(d)), t.data.get_original())),
+             ("schema.validate", lambda: sc.build_schema(rts), lambda o, d: sc.impl_validate_schema_nocopy(o, d))]
+    return doc, calls, {"rules": [x.descr()[:200] for x in rts], "shared-container": True}
+
+
 def profiled(executed, fn):
     """Run fn() recording every function of the valida package that is entered."""
     import os
@@ -84,6 +121,9 @@ def run(tier, seed, model_ok, spec_ok, replay=None):
         doc = sc_doc(g, i)
         other = g.document(3, 4)
         calls, descr = make_calls(g, cg, pg, rg, doc)
+        if i % 10 == 7:
+            doc, calls, descr = alias_cast_case(g)
+            dist["shared-container documents with fan-out cast rules"] += 1
         shared = {}
         for label, build, _ in calls:
             try:
@@ -92,6 +132,7 @@ def run(tier, seed, model_ok, spec_ok, replay=None):
                 shared[label] = None
         docs = [doc, other]
         pristine = [copy_value(d) for d in docs]
+        aliased = [copy.deepcopy(d) for d in docs]       # keeps the sharing of sub-containers (copy_value unfolds it)
         for step in range(hist_len):
             label, build, call = g.r.choice(calls)
             obj = shared[label]
@@ -110,7 +151,7 @@ def run(tier, seed, model_ok, spec_ok, replay=None):
                 viol.append(dict(d, kind="direct", what="the caller's document was modified by the call"))
                 break
             try:
-                fresh = E.run_outcome(lambda: call(build(), copy_value(pristine[di])))
+                fresh = E.run_outcome(lambda: call(build(), copy.deepcopy(aliased[di])))
             except Exception:
                 continue
             if fresh != out:
@@ -157,6 +198,10 @@ def run(tier, seed, model_ok, spec_ok, replay=None):
 
 def sc_doc(g, i):
     from .c15 import cast_doc
+    if i % 5 == 4:
+        # the same list / mapping OBJECT at several positions (YAML anchors and aliases, one defaults mapping used for several
+        # entries): a cast reaches it through each of them, and must still be written into the private copy only
+        return g.share(cast_doc(g, 4), times=g.r.randint(1, 3))
     return cast_doc(g, 3) if i % 2 else g.document(4, 4)
 
 
